@@ -262,6 +262,26 @@ def _arg_fresh_at_sites(p: Project, fname: str, argpos: int, allow_recursive_in:
 
 
 # --------------------------------------------------------------------------
+def class_level_container(ci: ClassInfo, holder: str):
+    """((class, stmt) | None, owned): where `holder` is bound to a mutable container display in a class body of the
+    MRO, and whether some __init__/__new__ of the MRO re-binds self.<holder> per instance"""
+    shared_at = None
+    owned = False
+    for c in ci.mro:
+        if not isinstance(c, ClassInfo):
+            continue
+        for st in c.node.body:
+            tg = st.targets[0] if isinstance(st, ast.Assign) and len(st.targets) == 1 else (st.target if isinstance(st, ast.AnnAssign) and st.value is not None else None)
+            if isinstance(tg, ast.Name) and tg.id == holder and isinstance(st.value, (ast.List, ast.Dict, ast.Set, ast.ListComp, ast.DictComp, ast.SetComp)) or (isinstance(tg, ast.Name) and tg.id == holder and isinstance(st.value, ast.Call) and text(st.value.func) in ("list", "dict", "set", "collections.deque", "deque", "defaultdict", "collections.defaultdict")):
+                shared_at = shared_at or (c, st)
+        for nm_ in ("__init__", "__new__"):
+            f_ = c.own_func(nm_)
+            if f_ is not None and any(isinstance(x, (ast.Assign, ast.AnnAssign)) and any(isinstance(y, ast.Attribute) and y.attr == holder and isinstance(y.value, ast.Name) and y.value.id == "self" for y in ((x.targets if isinstance(x, ast.Assign) else [x.target]))) for x in ast.walk(f_)):
+                owned = True
+    return shared_at, owned
+
+
+
 def triage(ctx: Ctx, w: Write, kind: str, why: str, schema: Schema):
     """the frozen table: (allowed?, reason) for writes that are neither fresh nor construction-time"""
     p = ctx.p
@@ -343,19 +363,7 @@ def triage(ctx: Ctx, w: Write, kind: str, why: str, schema: Schema):
         elif w.kind in ("item", "del") and isinstance(t_, ast.Subscript) and isinstance(t_.value, ast.Attribute) and isinstance(t_.value.value, ast.Name) and t_.value.value.id == ctx.recv:
             holder = t_.value.attr
         if holder is not None:
-            shared_at = None
-            owned = False
-            for c in ctx.ci.mro:
-                if not isinstance(c, ClassInfo):
-                    continue
-                for st in c.node.body:
-                    tg = st.targets[0] if isinstance(st, ast.Assign) and len(st.targets) == 1 else (st.target if isinstance(st, ast.AnnAssign) and st.value is not None else None)
-                    if isinstance(tg, ast.Name) and tg.id == holder and isinstance(st.value, (ast.List, ast.Dict, ast.Set, ast.ListComp, ast.DictComp, ast.SetComp)) or (isinstance(tg, ast.Name) and tg.id == holder and isinstance(st.value, ast.Call) and text(st.value.func) in ("list", "dict", "set", "collections.deque", "deque", "defaultdict", "collections.defaultdict")):
-                        shared_at = shared_at or (c, st)
-                for nm_ in ("__init__", "__new__"):
-                    f_ = c.own_func(nm_)
-                    if f_ is not None and any(isinstance(x, (ast.Assign, ast.AnnAssign)) and any(isinstance(y, ast.Attribute) and y.attr == holder and isinstance(y.value, ast.Name) and y.value.id == "self" for y in ((x.targets if isinstance(x, ast.Assign) else [x.target]))) for x in ast.walk(f_)):
-                        owned = True
+            shared_at, owned = class_level_container(ctx.ci, holder)
             if shared_at is not None and not owned:
                 return False, f"{ctx.ci.name}.{holder} is a mutable container created once in the class body of {shared_at[0].name} and never re-bound per instance; {text(w.target)} changes it in place through self, so every {ctx.ci.name} in the process (and every thread) shares one {holder}: a parse that fails half-way, or two concurrent parses, corrupt the next one"
     # 8. per-use parser objects
